@@ -54,12 +54,22 @@ BackRef(b, p, idx) ==
 Take(b, p, n) == SubSeq(b, p + 1, p + n)
 Have(b, p, n) == p + n <= Len(b)
 NoNode(e) == [ok |-> FALSE, err |-> e, nd |-> <<>>, p |-> 0]
+\* The jet table of the family being decoded: a sequence of rows [code, src_ty, tgt_ty, name, ...] as extracted
+\* from the crate for JetTable.tla (C14).  Empty (the default; models that decode jets override it) = jets are
+\* not known to the spec and an input containing one gets the verdict "skip".
+JetRows == <<>>
+JetsAt(b, p) == {k \in 1..Len(JetRows) : Have(b, p, Len(JetRows[k].code)) /\ Take(b, p, Len(JetRows[k].code)) = JetRows[k].code}
 \* decode_node: one entry starting at position p, for the node with 0-based index idx
 DecNode(b, p, idx) ==
   IF ~Have(b, p, 1) THEN NoNode("eof")
   ELSE IF b[p + 1] = 1 THEN
        IF ~Have(b, p, 2) THEN NoNode("eof")
-       ELSE IF b[p + 2] = 1 THEN NoNode("jet")                      \* jets: decoded by the family's table
+       ELSE IF b[p + 2] = 1 THEN                                    \* jets: decoded by the family's table (prefix-free, C14)
+            IF JetRows = <<>> THEN NoNode("jet")
+            ELSE LET c == JetsAt(b, p + 2) IN
+                 IF c = {} THEN NoNode("badjet")
+                 ELSE LET k == CHOOSE k \in c : TRUE IN
+                      [ok |-> TRUE, err |-> "none", nd |-> <<"jet", 0, 0, JetRows[k].code, k>>, p |-> p + 2 + Len(JetRows[k].code)]
        ELSE LET r == RdNat(b, p + 2, 32) IN
             IF ~r.ok THEN NoNode(r.err)
             ELSE LET w == 2 ^ (r.n - 1) IN                           \* r.n in 1..32: word of 2^(n-1) bits
@@ -127,6 +137,7 @@ ToProg(lst, k, map, out) ==
                 pn == IF nd[1] = "case" /\ IsHidden(lst, nd[3]) THEN <<"assertl", m(nd[2]), 0, lst[nd[3]][4]>>
                       ELSE IF nd[1] = "case" /\ IsHidden(lst, nd[2]) THEN <<"assertr", m(nd[3]), 0, lst[nd[2]][4]>>
                       ELSE IF nd[1] = "word" THEN <<"word", 0, 0, <<One, TwoN(Log2(Len(nd[4])))>>, nd[4]>>
+                      ELSE IF nd[1] = "jet" THEN <<"leaf", 0, 0, <<JetRows[nd[5]].src_ty, JetRows[nd[5]].tgt_ty>>, "jet", nd[4]>>
                       ELSE <<nd[1], m(nd[2]), m(nd[3]), nd[4]>>
             IN ToProg(lst, k + 1, Append(map, Len(out) + 1), Append(out, pn))
 
